@@ -126,7 +126,20 @@ def first_datagram_case(args):
                                         "fresh server lost its timer after %d firings following %s" % (n, label),
                                         label, data.hex()[:200]))
                     break
-                bot.timer()
+                try:
+                    bot.timer()
+                except core.HarnessError:
+                    raise
+                except Exception as e:  # noqa - the exception itself is C05's business; what it leaves behind is ours
+                    out["outcomes"].add(("exception", type(e).__name__))
+                    if E.terminated is None and E.conn.get_timer() is None:
+                        out["viol"].append(({"monitor": "timer.none_while_alive", "state": E.conn._state.name,
+                                             "after_exception": type(e).__name__},
+                                            "fresh server after first datagram %s: firing the timer raised %s and left the "
+                                            "connection in state %s without a timer and without a termination event - it "
+                                            "waits forever" % (label, type(e).__name__, E.conn._state.name),
+                                            label, data.hex()[:200]))
+                        break
                 n += 1
             terms = [e for e in E.events if type(e).__name__ == "ConnectionTerminated"]
             if len(terms) > 1:
